@@ -1832,15 +1832,16 @@ def run(rep):
 
     def g_labels():
         # JSON renderer labels
-        for q, want in (('JSONRender.__call__', 'application/json'), ('JSONPRender.__call__', 'application/javascript')):
-            f = simple.func(q)
+        for q, want in (('JSONRender.__call__', 'application/json'), ('JSONPRender.__call__', 'application/javascript'),
+                        ('TabularRender.context_to_response', 'text/html')):
+            f = (tabular if q.startswith('Tabular') else simple).func(q)
             calls = [c for c in walk_body(f.node) if _is_response(simple, c)]
             if not calls:
                 raise AnalysisError('%s: the Response it constructs was not found' % q)
             mts = [_fold_const(repo, f, argn(c, 'mimetype', 3)) for c in calls]
             ok = all(m == want for m in mts)
             rep.check('R17.e', fkey(f, 'mimetype'), ok, '%s labels its body %s' % (q, want) if ok else
-                      '%s does not label its body %s (found %r)' % (q, want, mts), simple, f.node)
+                      '%s does not label its body %s (found %r)' % (q, want, mts), f.mod, f.node)
 
 
     def render_roots():
@@ -1858,6 +1859,16 @@ def run(rep):
         from . import c17_more
         c17_more.check_shared(rep, repo, sys.modules[__name__], render_roots())
 
+    def g_total():
+        import sys
+        from . import c17_more
+        c17_more.check_total(rep, repo, sys.modules[__name__], render_roots())
+
+    def g_negotiation():
+        import sys
+        from . import c17_more
+        c17_more.check_negotiation(rep, repo, sys.modules[__name__])
+
     def safely(fn):
         def group():
             try:
@@ -1873,7 +1884,7 @@ def run(rep):
                                     % (fn.__name__, type(e).__name__, e, tb.filename.rpartition('/')[2], tb.lineno))
         group.__name__ = fn.__name__
         return group
-    for g in (g_names, g_guess, g_render, g_serialize, g_encoder, g_labels, g_templates, g_kinds, g_shared):
+    for g in (g_names, g_guess, g_render, g_serialize, g_encoder, g_labels, g_templates, g_kinds, g_shared, g_total, g_negotiation):
         rep.guard(safely(g))
     # floors are checked after all groups ran, so that one unrecognised construct does not hide the others
     for rule_, n_ in (('R17.c', 9),):
